@@ -303,6 +303,7 @@ const (
 type reader struct {
 	stop, done, started chan struct{}
 	bad, polls          int
+	readFailed          int // open/stat/read errors unrelated to the file's existence (EMFILE, EINTR, ...): inconclusive, never an alarm
 	sawNew              int // index of the last new content seen, -1 none
 }
 
@@ -320,7 +321,7 @@ func startReader(path string, old pathSnap, newcs [][]byte) *reader {
 						rd.bad |= badVanished
 					}
 				} else {
-					rd.bad |= badReadFailed
+					rd.readFailed++
 				}
 				return
 			}
@@ -328,7 +329,7 @@ func startReader(path string, old pathSnap, newcs [][]byte) *reader {
 			fi, e1 := f.Stat()
 			b, e2 := io.ReadAll(f)
 			if e1 != nil || e2 != nil {
-				rd.bad |= badReadFailed
+				rd.readFailed++
 				return
 			}
 			exists = true
